@@ -66,6 +66,19 @@ def _scan_array_ufunc(arr_mod):
                     eq_ne = nm
                 elif "modf" in nm and tuple_outputs is None:
                     tuple_outputs = nm
+    # `if unit_operator is X and not u0.same_dimensions_as(u1): unit_operator = Y`
+    swaps = []
+    for node in ast.walk(tree):
+        if isinstance(node, ast.If) and isinstance(node.test, ast.BoolOp) and isinstance(node.test.op, ast.And) and len(node.test.values) == 2:
+            a, b = node.test.values
+            if (isinstance(a, ast.Compare) and isinstance(a.left, ast.Name) and a.left.id == "unit_operator"
+                    and len(a.ops) == 1 and isinstance(a.ops[0], ast.Is) and isinstance(a.comparators[0], ast.Name)
+                    and isinstance(b, ast.UnaryOp) and isinstance(b.op, ast.Not) and isinstance(b.operand, ast.Call)
+                    and isinstance(b.operand.func, ast.Attribute) and b.operand.func.attr == "same_dimensions_as"
+                    and len(node.body) == 1 and isinstance(node.body[0], ast.Assign)
+                    and isinstance(node.body[0].targets[0], ast.Name) and node.body[0].targets[0].id == "unit_operator"
+                    and isinstance(node.body[0].value, ast.Name)):
+                swaps.append((glob[a.comparators[0].id].__name__, glob[node.body[0].value.id].__name__))
     unit_operator_in.sort()
     if len(unit_operator_in) != 2:
         raise ValueError(f"expected two `unit_operator in (...)` tests in __array_ufunc__, found {unit_operator_in}")
@@ -78,7 +91,14 @@ def _scan_array_ufunc(arr_mod):
         "reducePowerUfuncs": reduce_power,
         "eqNeUfuncs": eq_ne,
         "tupleOutputUfuncs": tuple_outputs,
+        "ruleSwaps": swaps,
     }
+
+
+def D_length():
+    import unyt.dimensions as D
+
+    return D.length
 
 
 def _probe_units():
@@ -158,6 +178,17 @@ def generate(X):
                 rec = ("raises", type(e).__name__, None)
             probes.append((rname, pname, rec))
 
+    # how many factors `_apply_power_mapping` counts: exponent given to the probe unit by multiply.reduce
+    rprobes = []
+    foo = units["foo"]
+    for shape in [(3, 3), (2, 5), (4,), (2, 3, 4)]:
+        size = int(np.prod(shape))
+        kws = [(-2, {}), (-1, {"axis": None})] + [(a, {"axis": a}) for a in range(len(shape))]
+        for code, kw in kws:
+            _m, u = arr_mod._apply_power_mapping(np.multiply, foo, size, shape, kw)
+            e = sympy.Rational(sympy.sympify(u.dimensions).as_powers_dict().get(D_length(), 0))
+            rprobes.append((list(shape), code, int(e)))
+
     def lq(q):
         return X.lrat(q)
 
@@ -194,6 +225,13 @@ def generate(X):
         + f"/-- ufuncs whose `reduce` is a power of the unit -/\ndef reducePowerUfuncs : List String := {lstrs(scan['reducePowerUfuncs'])}\n\n"
         + f"/-- comparisons that return early on a dimension mismatch -/\ndef eqNeUfuncs : List String := {lstrs(scan['eqNeUfuncs'])}\n\n"
         + f"/-- ufuncs whose outputs are wrapped as a tuple -/\ndef tupleOutputUfuncs : List String := {lstrs(scan['tupleOutputUfuncs'])}\n\n"
+        + "/-- `if unit_operator is X and not u0.same_dimensions_as(u1): unit_operator = Y` -/\ndef ruleSwaps : List (String × String) := ["
+        + ", ".join(f"({X.lstr(a)}, {X.lstr(b)})" for a, b in scan["ruleSwaps"])
+        + "]\n\n"
+        + "/-- `_apply_power_mapping(multiply, u, size, shape, kwargs)`: (shape, axis keyword: -2 absent / -1 None / index, exponent) -/\n"
+        + "def reduceCountProbes : List (List Nat × Int × Int) := [\n"
+        + ",\n".join(f"  ([{', '.join(map(str, sh))}], {code}, {e})" for sh, code, e in rprobes)
+        + "\n]\n\n"
         + "/-- outcome of a rule function on probe units -/\ninductive Probe\n"
         + "  | raises (exc : String)\n  | bare (mul : Rat)\n"
         + "  | unit (mul scale : Rat) (dim : Dim) (coeff : Rat) (factors : List (String × Rat))\nderiving DecidableEq, Repr\n\n"
